@@ -1,7 +1,8 @@
 """C07 helper: build and run one stochastic fan-out program under a configuration -> digest.
 Used in-process (props/c07_reproducibility.py) and in child interpreters (props/_c07_child.py)."""
 from vlib import stoch
-from vlib.simharness import Harness, RefSim, enc_obs, dec_ref
+from vlib.simharness import Harness, RefSim, enc_obs, dec_ref, dec_sut
+from vlib.runner import Inconclusive
 
 LAST_CLOCK_ADVANCES = None
 _TYPES = []
@@ -208,6 +209,52 @@ def run_program(case, drive, twice=False):
             keep_listeners = (A(), B())
             for l_ in keep_listeners:
                 h.sim.add_listener(SimulatorInterface.STARTING_EVENT, l_)
+        if drive[0] in ("slow-stop-listener", "fast-stop-listener"):
+            # the same for the listeners of the STOP notification of a pause: the user waits until the simulator
+            # says it has stopped (polling run_state, as user code does) and resumes at once.  However long a STOP
+            # listener takes, it has finished before the simulator says so.
+            import time as _t
+            from pydsol.core.pubsub import EventListener
+            from pydsol.core.interfaces import SimulatorInterface
+            from pydsol.core.simulator import RunState as _RS
+            model = h.model
+            nap = drive[1] if drive[0] == "slow-stop-listener" else 0.0
+
+            class SA(EventListener):
+                def notify(self, event):
+                    if nap:
+                        _t.sleep(nap)
+                    if model.streams:
+                        starting_log.append(["A", float(model.streams[0].next_float()).hex(), len(model.trace)])
+
+            class SB(EventListener):
+                def notify(self, event):
+                    starting_log.append(["B", len(model.trace)])
+            keep_listeners = (SA(), SB())
+            for l_ in keep_listeners:
+                h.sim.add_listener(SimulatorInterface.STOP_EVENT, l_)
+            s, ln = dec_ref(prog["rep"]["start"]), dec_ref(prog["rep"]["length"])
+            if prog["clock"] == "int":
+                b = s + (ln * drive[2]) // 10
+            else:
+                b = s + ln * (drive[2] / 10.0)
+                b = [float(b).hex(), "s"] if prog["clock"] == "duration" else float(b).hex()
+            h.sim.run_up_to(dec_sut(b))
+            deadline = _t.monotonic() + 20.0
+            while h.sim.run_state not in (_RS.STOPPED, _RS.ENDED):
+                if _t.monotonic() > deadline:
+                    raise Inconclusive("no pause within 20 s")
+                _t.sleep(0)
+            if h.sim.run_state == _RS.STOPPED:
+                # one event by step() - carried out by the calling thread - then the rest of the run
+                for cmd in (h.sim.step, h.sim.start):
+                    if h.sim.run_state != _RS.STOPPED:
+                        break
+                    try:
+                        cmd()
+                    except Exception as e:            # (refused: the digest says so)
+                        starting_log.append(["refused", cmd.__name__, type(e).__name__])
+            h.settle(allow_limbo=True)
         slow_probe = {}
         if drive[0] == "pause-slow":
             # the event after which the run is paused takes longer than stop() is willing to wait (1 s): until the
